@@ -110,6 +110,8 @@ class CaseOut:
     sample: Any = None
     #: extra counters merged into coverage (name -> int)
     counters: dict[str, int] = field(default_factory=dict)
+    #: the case ran on a schedule the harness does not own (real threads)
+    nondeterministic: bool = False
 
     def fail(self, signature: str, message: str) -> None:
         self.failures.append(Failure(signature, message))
@@ -324,6 +326,17 @@ def _run_hypothesis(mod: Any, tier: str, seed: int, shard: int, acc: _Acc,
             if state['sig'] is not None:
                 # while shrinking, stay on the same root cause
                 unknown = [f for f in unknown if f.signature == state['sig']]
+            if unknown and getattr(out, 'nondeterministic', False):
+                # the case's schedule is not the harness's (real threads):
+                # it may not fail again, so it is neither shrunk nor replayed
+                # by Hypothesis - recorded as it is, and the search goes on
+                for f in unknown:
+                    acc.violations.setdefault(
+                        f.signature, {'case': case, 'message': f.message
+                                      + ' [schedule owned by the OS: replay '
+                                      'may need several runs]'})
+                    suppressed.add(f.signature)
+                return
             if unknown:
                 f = unknown[0]
                 if state['t_first'] is None:
@@ -408,6 +421,11 @@ def run_property(mod_name: str, tier: str, seed: int,
         if hasattr(mod, 'shard_setup'):
             mod.shard_setup(0)
         out = run_case_guarded(mod, rec["case"])
+        tries = 1
+        while getattr(out, 'nondeterministic', False) and not out.failures \
+                and tries < 25:
+            out = run_case_guarded(mod, rec["case"])   # OS-owned schedule
+            tries += 1
         if hasattr(mod, 'shard_teardown'):
             mod.shard_teardown(0)
         bad = [f for f in out.failures if f.signature not in known]
